@@ -511,7 +511,7 @@ type myRelay struct {
 	groups map[string]*myGroup
 	answ   map[string]*myAnswer
 	mu     sync.Mutex
-	failed map[string]bool // mode|group|answer of failing single steps
+	failed map[string]bool // seqKey of failing (prefixes of) sequences
 	fails  []myRelayFailure
 }
 
@@ -548,6 +548,7 @@ func (m *myRelay) run(c myRelayCase) (ok bool) {
 		}
 		m.mu.Lock()
 		m.fails = append(m.fails, myRelayFailure{Where: w + "/" + class, Msg: fmt.Sprintf(format, a...), Case: c})
+		m.failed[seqKey(c.DeprecateEOF, c.Steps[:step+1])] = true
 		m.mu.Unlock()
 		return false
 	}
@@ -682,8 +683,24 @@ func around(a, b []byte) string {
 	return "got .." + cut(a) + ".. want .." + cut(b) + ".."
 }
 
-func (m *myRelay) key(dep bool, st myRelayStep) string {
-	return modeName(dep) + "|" + st.Group + "|" + st.Answer
+func seqKey(dep bool, steps []myRelayStep) string {
+	k := modeName(dep)
+	for _, st := range steps {
+		k += "|" + st.Group + ">" + st.Answer
+	}
+	return k
+}
+
+// containsFailing reports whether a contiguous part of steps is known to fail on its own.
+func (m *myRelay) containsFailing(dep bool, steps []myRelayStep) bool {
+	for i := range steps {
+		for j := i + 1; j <= len(steps); j++ {
+			if (i > 0 || j < len(steps)) && m.failed[seqKey(dep, steps[i:j])] {
+				return true
+			}
+		}
+	}
+	return false
 }
 
 func relayPart(r *ev.Run, env *sess.MyEnv, thorough bool, replay *myRelayCase) {
@@ -748,21 +765,15 @@ func relayPart(r *ev.Run, env *sess.MyEnv, thorough bool, replay *myRelayCase) {
 		}
 	}
 	singles := len(jobs)
-	done := par.Do(len(jobs), r.Expired, func(i int) {
-		if !m.run(jobs[i]) {
-			m.mu.Lock()
-			m.failed[m.key(jobs[i].DeprecateEOF, jobs[i].Steps[0])] = true
-			m.mu.Unlock()
-		}
-	})
+	done := par.Do(len(jobs), r.Expired, func(i int) { m.run(jobs[i]) })
 	if done < len(jobs) {
 		r.Capped(fmt.Sprintf("mysql relay: %d of %d single-step sessions", done, len(jobs)))
 	}
 	r.States(len(jobs))
 	// Length 2 (thorough: 3): one representative per (coarse group class, answer category) - value
-	// shapes were covered by length 1 - in every order. A representative that already fails alone
-	// in a mode is left out in that mode (the verdict of such sequences is that of the single
-	// step: minimal keys).
+	// shapes were covered by length 1 - in every order. A sequence that contains a shorter sequence
+	// already known to fail in that mode is left out (its verdict is that of the shorter one:
+	// minimal keys).
 	var reps []myRelayStep
 	seen := map[string]bool{}
 	for _, e := range elems {
@@ -777,35 +788,32 @@ func relayPart(r *ev.Run, env *sess.MyEnv, thorough bool, replay *myRelayCase) {
 		seen[k] = true
 		reps = append(reps, e)
 	}
-	jobs = nil
 	skipped := 0
 	counts := map[int]int{}
 	maxLen := 2
 	if thorough {
 		maxLen = 3
 	}
-	for n := 2; n <= maxLen; n++ {
+	total := 0
+	for n := 2; n <= maxLen; n++ { // one round per length: a round knows what failed in the shorter ones
+		jobs = nil
 		for _, dep := range []bool{false, true} {
-			var usable []myRelayStep
-			for _, e := range reps {
-				if m.failed[m.key(dep, e)] {
-					skipped++
-					continue
-				}
-				usable = append(usable, e)
-			}
 			idx := make([]int, n)
 			for {
 				steps := make([]myRelayStep, n)
 				for k, x := range idx {
-					steps[k] = usable[x]
+					steps[k] = reps[x]
 				}
-				jobs = append(jobs, myRelayCase{Part: "mysql-relay", DeprecateEOF: dep, Steps: steps})
-				counts[n]++
+				if m.containsFailing(dep, steps) {
+					skipped++
+				} else {
+					jobs = append(jobs, myRelayCase{Part: "mysql-relay", DeprecateEOF: dep, Steps: steps})
+					counts[n]++
+				}
 				k := n - 1
 				for k >= 0 {
 					idx[k]++
-					if idx[k] < len(usable) {
+					if idx[k] < len(reps) {
 						break
 					}
 					idx[k] = 0
@@ -816,15 +824,16 @@ func relayPart(r *ev.Run, env *sess.MyEnv, thorough bool, replay *myRelayCase) {
 				}
 			}
 		}
+		done = par.Do(len(jobs), r.Expired, func(i int) { m.run(jobs[i]) })
+		if done < len(jobs) {
+			r.Capped(fmt.Sprintf("mysql relay: %d of %d sessions of length %d", done, len(jobs), n))
+		}
+		total += len(jobs)
+		if len(jobs) > 0 && n == 2 {
+			r.Sample(jobs[len(jobs)/3])
+		}
 	}
-	done = par.Do(len(jobs), r.Expired, func(i int) { m.run(jobs[i]) })
-	if done < len(jobs) {
-		r.Capped(fmt.Sprintf("mysql relay: %d of %d multi-step sessions (length 2 first, then 3)", done, len(jobs)))
-	}
-	r.States(len(jobs))
-	if len(jobs) > 0 {
-		r.Sample(jobs[len(jobs)/3])
-	}
+	r.States(total)
 	m.emit()
 	r.Set("mysql_relay_groups", len(gs))
 	r.Set("mysql_relay_answers", len(as))
@@ -832,7 +841,7 @@ func relayPart(r *ev.Run, env *sess.MyEnv, thorough bool, replay *myRelayCase) {
 	r.Set("mysql_relay_representatives", len(reps))
 	r.Set("mysql_relay_pair_sessions", counts[2])
 	r.Set("mysql_relay_triple_sessions", counts[3])
-	r.Set("mysql_relay_representatives_left_out_failing_alone", skipped)
+	r.Set("mysql_relay_sequences_left_out_containing_a_failing_shorter_one", skipped)
 }
 
 // ---- entry points ----------------------------------------------------------------------------------------
@@ -884,6 +893,10 @@ func mysqlReplay(r *ev.Run, ks *filesystem.KeyStore, thorough bool) bool {
 			yaml = mySchemaThorough
 		}
 		(&myRewrite{r: r, env: myEnv(ks, yaml)}).run(c)
+	case "mysql-handshake":
+		var c myHandshakeCase
+		r.LoadReplay(&c)
+		handshakeCase(r, myEnv(ks, mySchemaQuick), c)
 	case "mysql-codec":
 		var c myCodecCase
 		r.LoadReplay(&c)
@@ -907,6 +920,7 @@ func myEnv(ks *filesystem.KeyStore, yaml string) *sess.MyEnv {
 func mysqlPart(r *ev.Run, ks *filesystem.KeyStore, thorough bool) {
 	env := myEnv(ks, mySchemaQuick)
 	relayPart(r, env, thorough, nil)
+	handshakePart(r, env)
 	rewritePartMy(r, env, "quick", []string{"t", "ty"}, thorough)
 	if thorough {
 		// tokenization and masking change the processor chain of the whole proxy: own environment
